@@ -579,6 +579,74 @@ func largeFrameSweep(cfgName string, prof refterm.Profile) {
 	}
 }
 
+// resizeHistorySweep: every sequence of up to three size changes (same width with other heights, same height
+// with other widths, both) of a fully painted 3x3 screen; after each one the application draws a single cell,
+// and every other cell must be blank - whatever the screen buffers held before.
+func resizeHistorySweep(cfgName string, prof refterm.Profile) {
+	sizes := [][2]int{{3, 1}, {3, 2}, {3, 3}, {2, 3}, {4, 3}, {3, 4}}
+	inband := prof.Has(refterm.CapInBandResize)
+	var rec func(seq []int)
+	rec = func(seq []int) {
+		if len(seq) > 0 {
+			cfg := &config{Name: cfgName, Cols: 3, Rows: 3, Prof: prof}
+			w, err := open(cfg)
+			if err != nil {
+				r.Fault("session: %v", err)
+			}
+			win := w.s.Vx.Window()
+			for y := 0; y < 3; y++ {
+				for x := 0; x < 3; x++ {
+					c := vaxis.Cell{Character: ch("Q", 1), Style: vaxis.Style{Attribute: vaxis.AttrBold, Background: vaxis.IndexColor(4)}}
+					win.SetCell(x, y, c)
+					w.m.SetCell(x, y, c)
+				}
+			}
+			w.s.Vx.Render()
+			var names []string
+			ok := true
+			for _, si := range seq {
+				sz := sizes[si]
+				names = append(names, fmt.Sprintf("resize to %dx%d, draw one cell, Render", sz[0], sz[1]))
+				if sz[0] == w.m.Cols && sz[1] == w.m.Rows {
+					ok = false // not a change: the sequence is covered by a shorter one
+					break
+				}
+				w.s.Con.ResizeTerm(sz[0], sz[1])
+				if inband {
+					w.s.Barrier()
+				} else {
+					w.s.Vx.Resize()
+				}
+				w.s.Vx.Render() // absorbs the size change
+				w.m = screenmodel.New(sz[0], sz[1])
+				c := vaxis.Cell{Character: ch("x", 1)}
+				w.s.Vx.Window().SetCell(0, 0, c)
+				w.m.SetCell(0, 0, c)
+				w.s.Vx.Render()
+				w.s.Drain()
+				r.Count("resize_histories", 1)
+				if sig, why := w.check(frame{Finish: 0}, nil); sig != "" {
+					sig = strings.Replace(sig, "C01|", "C01|resize-history|", 1)
+					r.Violation(sig, len(seq), map[string]any{"search": "resize-history", "profile": prof.String(), "steps": names, "why": why})
+					ok = false
+					break
+				}
+			}
+			if ok {
+				r.Distinct(explore.Hash("resize-history", cfgName, fmt.Sprint(seq)))
+			}
+			w.close()
+		}
+		if len(seq) == 3 {
+			return
+		}
+		for i := range sizes {
+			rec(append(append([]int{}, seq...), i))
+		}
+	}
+	rec(nil)
+}
+
 // ---- main -----------------------------------------------------------------------------------
 
 func profiles() map[string]refterm.Profile {
@@ -687,6 +755,11 @@ func main() {
 					largeFrameSweep(name, profiles()[name])
 				}
 			}
+			for i, name := range []string{"none", "inband"} {
+				if (i+5)%n == idx {
+					resizeHistorySweep(name, profiles()[name])
+				}
+			}
 			r.WorkerDone()
 		}
 		r.Fault("unknown worker arg %q", arg)
@@ -709,7 +782,7 @@ func main() {
 	trans += r.Get("pen_pairs")
 	r.Finish(explore.Coverage{
 		States: states, Transitions: trans, Traces: trans, Evaluations: trans,
-		Rule:       "explicit-state BFS over (real Vaxis, reference terminal) pairs; transition = one frame (optional Clear/Fill, one SetCell/SetStyle/Print from a 12-cell alphabet, optional cursor request, then Render | Refresh | scramble+Refresh | resize); successor = replay of the frame path on a fresh session; state key = hash(renderer state dump, terminal dump, application record); plus a history-free sweep of ordered style pairs on a 2x1 screen. distinct = distinct canonical states + distinct style pairs that passed; large frames: a 100x40 screen with every cell styled (three style variants incl. RGB, styled underline and a hyperlink per cell; tens of kilobytes per frame), three Renders and three Refreshes per capability profile",
+		Rule:       "explicit-state BFS over (real Vaxis, reference terminal) pairs; transition = one frame (optional Clear/Fill, one SetCell/SetStyle/Print from a 12-cell alphabet, optional cursor request, then Render | Refresh | scramble+Refresh | resize); successor = replay of the frame path on a fresh session; state key = hash(renderer state dump, terminal dump, application record); plus a history-free sweep of ordered style pairs on a 2x1 screen. distinct = distinct canonical states + distinct style pairs that passed; large frames: a 100x40 screen with every cell styled (three style variants incl. RGB, styled underline and a hyperlink per cell; tens of kilobytes per frame), three Renders and three Refreshes per capability profile; resize histories: every sequence of up to three size changes over six sizes (heights and widths around 3x3) of a fully painted screen, one cell drawn after each - every other cell must be blank",
 		Exhaustive: exhaustive,
 		Bounds:     bounds,
 		Assumptions: []string{
